@@ -22,6 +22,7 @@ type pstage struct {
 	outDir bool
 	dst    string // file the command writes
 	noCmd  bool
+	static string // a second file inside a directory output that the command leaves alone
 }
 
 type pipeline struct {
@@ -65,6 +66,14 @@ func genDAG(r *rng, n int, s *summary) *pipeline {
 					// an input nested inside a directory output (owner found through an ancestor)
 					st.ins = append(st.ins, up.dst)
 					s.count("input:nested-in-dir-output")
+					if r.chance(1, 2) {
+						// a second input owned by the SAME upstream stage
+						if up.static == "" {
+							up.static = up.out + "/static.txt"
+						}
+						st.ins = append(st.ins, up.static)
+						s.count("input:two-inputs-from-one-upstream-stage")
+					}
 				} else if up.outDir {
 					st.ins = append(st.ins, up.out)
 					s.count("input:dir-output")
@@ -219,6 +228,12 @@ func onePipe(o *opts, r *rng, s *summary, i int, pl *pipeline, distinct map[stri
 	for k, src := range pl.sources {
 		must(os.MkdirAll(filepath.Dir(filepath.Join(p.Root, src)), 0o755))
 		must(os.WriteFile(filepath.Join(p.Root, src), []byte(fmt.Sprintf("source%d-v0\n", k)), 0o644))
+	}
+	for _, st := range pl.stages {
+		if st.static != "" {
+			must(os.MkdirAll(filepath.Dir(filepath.Join(p.Root, st.static)), 0o755))
+			must(os.WriteFile(filepath.Join(p.Root, st.static), []byte("static part of "+st.out+"\n"), 0o644))
+		}
 	}
 	var sems []CmdSem
 	var files []string
